@@ -22,7 +22,7 @@ PROPERTY_IDS = ["C22"]
 LEVEL = "exploration"
 
 tiers: Dict[str, Dict[str, Any]] = {
-    "quick": {"runs": 0, "chunk": 1, "wall_cap_s": 900, "determinism_samples": 2,
+    "quick": {"runs": 0, "chunk": 1, "wall_cap_s": 2400, "determinism_samples": 2,
               "children": 3, "big_children": 2, "batch": 28, "max_minimise": 3,
               "minimise_budget_s": 90},
     "thorough": {"runs": 0, "chunk": 1, "wall_cap_s": 3300, "determinism_samples": 2,
